@@ -51,6 +51,22 @@ def render(case: dict) -> Tuple[str, List[str], Dict[str, str]]:
             lines += [f"{n} = 0", f"{n} += {i}"]
             names.append(n)
             uses.append(f"print({n})")
+        elif k == "chain":
+            lines += [f"first_{i} = {n} = {i} + 30"]
+            names.append(n)
+            uses.append(f"print({n})")
+        elif k == "starred":
+            lines += [f"head_{i}, *{n} = [{i}, 2, 3]"]
+            names.append(n)
+            uses.append(f"print({n})")
+        elif k == "listtarget":
+            lines += [f"[left_{i}, {n}] = [{i}, 2]"]
+            names.append(n)
+            uses.append(f"print({n})")
+        elif k == "underscore":
+            lines += [f"_ = {i} + 5"]
+            names.append("_")
+            uses.append("print(_)")
         elif k == "tuple":
             lines += [f"{n}, other_{i} = {i}, 2"]
             names.append(n)
